@@ -391,19 +391,6 @@ func vfC08ConfigCases() []configCase {
 	}}
 }
 
-type vfNullPrinter struct{}
-
-func (vfNullPrinter) Printf(string, ...any)               {}
-func (vfNullPrinter) PrefixPrintf(string, string, ...any) {}
-
-func vfTrieOrEmpty(p []string) *testTrie {
-	tr := parsePatterns(p)
-	if tr == nil {
-		tr = &testTrie{}
-	}
-	return tr
-}
-
 // TestVerifC08Run drives the real run() up to the point where it would start a
 // client process (the client command does not exist, so a configuration that
 // passes all pattern validation ends with "error starting client").
